@@ -214,6 +214,17 @@ func GenCfg(r *kit.Rand, backends []string) Cfg {
 	if c.Backend == "dequeblock" || c.Backend == "lifo" || c.Backend == "queuelim" {
 		c.Cap = r.Range(1, 4)
 	}
+	// custom distributors: MakeDistributorBroker over a distributor carrying filters
+	if r.Chance(1, 5) {
+		switch r.Intn(3) {
+		case 0:
+			c.InF = r.Range(2, 4)
+		case 1:
+			c.OutF = r.Range(2, 4)
+		default:
+			c.InF, c.OutF = r.Range(2, 3), r.Range(3, 5)
+		}
+	}
 	return c
 }
 
@@ -329,5 +340,19 @@ func GenRedundantUnsub(id int, backend string, n int) Scenario {
 		{Op: "unsub", I: 1}, {Op: "unsub2", I: 1}, {Op: "burst", Pubs: seq(n)},
 		{Op: "unsubx"}, {Op: "unsub2", I: 1}, {Op: "burst", Pubs: seq(3)},
 		{Op: "sub"}, {Op: "burst", Pubs: seq(3)}}
+	return sc
+}
+
+// GenFiltered: the demo configuration of a filtered distributor - a pool of
+// workers over an output-filtered (and/or input-filtered) buffer, several
+// rejected publications, subscribers reading throughout.
+func GenFiltered(id int, backend string, inF, outF, w int, par bool) Scenario {
+	sc := Scenario{ID: id, Kind: "filtered", Cfg: Cfg{Backend: backend, W: w, Par: par, InF: inF, OutF: outF}}
+	a, b := []int{}, []int{}
+	for i := 1; i <= 12; i++ {
+		a = append(a, i)
+		b = append(b, 12+i)
+	}
+	sc.Steps = []Step{{Op: "sub"}, {Op: "sub"}, {Op: "burst", Pubs: [][]int{a}}, {Op: "pburst", Pubs: [][]int{b}}}
 	return sc
 }
